@@ -4,7 +4,8 @@ from common import *
 LEVEL = 'proof'
 CLAIMED = True
 
-RULE = ('correspondence: random histories of 1..4 operations (draw_iter with unordered/duplicate points, fill_contiguous with '
+RULE = ('correspondence: random histories of 1..4 operations (draw_iter with unordered/duplicate points - called directly or '
+        'through the public wrappers Pixel::draw, PixelIteratorExt::draw, PixelIteratorExt::translated(d).draw -, fill_contiguous with '
         'full / short / over-long / empty / constant-endless colour streams incl. generated long streams `G n a b`, fill_solid, '
         'clear) issued through random adapter stacks of depth 0..4 (clipped, cropped, translated, color_converted; rectangles '
         'chosen relative to the exact current level box: overlapping, containing, inside, disjoint, zero-sized, flat; when the '
@@ -15,6 +16,8 @@ RULE = ('correspondence: random histories of 1..4 operations (draw_iter with uno
         'runs on a draw_iter-only parent (tstack 0: real trait defaults), on a native parent (tstack 1) and as call log '
         '(tcalls: the calls that reach the parent, i.e. the re-cut colour streams of Clipped::fill_contiguous); tcrop drives the '
         'Cropped colour iterator alone through a clipped target (all crop positions of a small grid, random, display-scale). '
+        'tinto / p_into_pixels: ContiguousIteratorExt::into_pixels on grid, random, zero-sized, i32-edge and display-sized areas with '
+        'full / short / over-long / empty / endless streams against szip (points area) stream / the explicit row-major reference. '
         'Compared: reported bounding_box() of the outermost adapter + the root pixel map AFTER EVERY OPERATION / the call log. '
         'Stacks are built from the concrete nested library types (DrawTargetExt constructors called on the already adapted '
         'target, operations through the public DrawTarget methods); beyond depth 3 behind a forwarding wrapper. corpus/C03.txt '
@@ -143,7 +146,18 @@ def gen_ops(rng, level, maxops, lim=None, good=0.5):
                 if lim is not None:
                     p = (min(max(p[0], lim[0]), lim[1]), min(max(p[1], lim[2]), lim[3]))
                 pts.append((p[0], p[1], rng.randrange(1, 250)))
-            ops.append(J('D', n, *[v for p in pts for v in p]))
+            # the same pixels through draw_iter directly or through the public wrappers that end in it:
+            # Drawable for Pixel (one pixel), PixelIteratorExt::draw, PixelIteratorExt::translated(d).draw
+            w = rng.random()
+            if w < 0.5 or (lim is not None and w >= 0.8):
+                ops.append(J('D', n, *[v for p in pts for v in p]))
+            elif w < 0.65 and pts:
+                ops.append(J('P', *pts[0]))
+            elif w < 0.8 or not pts:
+                ops.append(J('DI', n, *[v for p in pts for v in p]))
+            else:
+                d = (rng.randrange(-4, 5), rng.randrange(-4, 5))
+                ops.append(J('DT', *d, n, *[v for p in pts for v in (p[0] - d[0], p[1] - d[1], p[2])]))
         elif k < 0.65:
             r = near(rng, ref, 4, good=good)
             r = fit((r[0], r[1], min(r[2], 14), min(r[3], 14)))
@@ -391,8 +405,32 @@ def crop_cases(rng, tier):
     return out
 
 
+def into_cases(rng, tier, suite):
+    """ContiguousIteratorExt::into_pixels: all areas of a small grid x full / short / over-long / empty / endless streams,
+    random non-origin and zero-sized areas, areas at the edge of i32, a few display-sized ones"""
+    out = []
+    for r in grid_rects(4, -2):
+        n = r[2] * r[3]
+        for m in sorted(set([0, max(0, n - 1), n, n + 3])):
+            out.append(J(suite, *r, 'L', m, *range(1, m + 1)))
+        out.append(J(suite, *r, 'I', 9))
+    for _ in range(300 if tier == 'quick' else 20000):
+        k = rng.random()
+        w, h = (rng.choice([(0, 0), (0, 7), (7, 0)]) if k < 0.1 else (rng.randrange(1, 14), rng.randrange(1, 14)))
+        if k < 0.75:
+            x, y = rng.randrange(-70, 71), rng.randrange(-70, 71)
+        else:
+            x = rng.choice([IMAX - w - rng.randrange(0, 3), IMIN + rng.randrange(0, 3), rng.randrange(-2 ** 20, 2 ** 20)])
+            y = rng.choice([IMAX - h - rng.randrange(0, 3), IMIN + rng.randrange(0, 3), rng.randrange(-2 ** 20, 2 ** 20)])
+        out.append(J(suite, x, y, w, h, stream(rng, w * h)))
+    for w, h in ((320, 240), (257, 256), (300, 1), (1, 300)):
+        out.append(J(suite, rng.randrange(-50, 50), rng.randrange(-50, 50), w, h, 'G', w * h - rng.choice([0, 0, 7]), 7, 1))
+    return out
+
+
 def cases(tier, rng):
     yield from BIG_FIXED
+    yield from into_cases(rng, tier, 'tinto')
     n = 3000 if tier == 'quick' else 60000
     for i in range(n):
         hst = history(rng)
@@ -435,6 +473,7 @@ def chain_case(rng):
 
 
 def search(tier, rng):
+    yield from into_cases(rng, tier, 'p_into_pixels')
     n = 5000 if tier == 'quick' else 200000
     for _ in range(n):
         yield 'p_stack %d %s' % (rng.randrange(2), history(rng, good=0.85))
@@ -448,7 +487,7 @@ def search(tier, rng):
         yield 'p_stack %d %s' % (rng.randrange(2), g)
 
 
-LEVEL_TEXT = ('Proof: 27 Coq theorems over the Gallina model of the draw-target layer (coq/Model/Target.v: trait defaults unfolded '
+LEVEL_TEXT = ('Proof: 30 Coq theorems over the Gallina model of the draw-target layer (coq/Model/Target.v: trait defaults unfolded '
               'literally, the Cropped colour iterator as its next() state machine, the four adapters line by line). Proved for ALL '
               'inputs in range: default fill_contiguous/fill_solid/clear = row-major points paired with the stream (full, short, '
               'endless); the Cropped iterator yields exactly the colours at the row-major indices of crop /\\ area (initial skip, row '
@@ -486,3 +525,6 @@ LEVEL_NOTE = ('Quantifier: the theorems cover stacks of any depth (the property 
 #   draw_target/mod.rs DrawTargetExt::cropped pre-clipping the area to an origin box; Translated::clear filling its own
 #                (translated) bounding box on the parent; ColorConverted::clear as fill_solid(parent box) (same pixels,
 #                different call: reported by the call log as correspondence-broken)
+# Round 3 (API entry points): Pixel::draw drawing at p+(1,0): 158-177 correspondence / 88-110 search lines per seed;
+#   PixelIteratorExt::draw dropping the first pixel: 263-280 / 80-116; IntoPixels over a transposed area (width/height
+#   swapped): 481-501 / 486-495 (tinto / p_into_pixels; ./check C01 does not see it: both kinds of target are affected alike)
